@@ -1040,7 +1040,7 @@ Proof.
   - (* CSpawn *) inv_step Hs. exact (step_cspawn cfg own s tr t G Elt Epc).
   - (* CShrinkLock *) destruct (st_mtx s); inv_step Hs; [exact G|]. simple_goto G Elt Epc.
   - (* CShrinkChk *) destruct (_ <? _); inv_step Hs; simple_goto G Elt Epc.
-  - (* CShrinkDec *) inv_step Hs; simple_goto G Elt Epc.
+  - (* CShrinkDec *) inv_step Hs. destruct (c_fixed cfg); simple_goto G Elt Epc.
   - (* CShrinkUnlock *) inv_step Hs; simple_goto G Elt Epc.
   - (* WCall *)
     destruct ((work =? 3)%nat && negb (f_aborting (get_fut s f))); inv_step Hs; [exact G|].
